@@ -122,4 +122,224 @@ example :
     (KM.Gen.GoIssue.sshIssue ext "POST".toList "alice".toList 3600 true).2 =
       [.sign "alice".toList "ssh-rsa AAAA".toList .main 3600, .publish 42, .respond] := by decide
 
+/-! ## `postAuthX509CertHandler` (`KM.Gen.GoIssue.x509Issue`, translated with a join point after the group lookup) -/
+
+/-- what `postAuthX509CertHandler` does once the user's groups are known (`ug`; empty when they are not needed) -/
+def afterGroups (ext : X509IssueExt) (method user addGroups : List Char) (duration : Int) (kube : Bool)
+    (ug : List (List Char)) : List X509Effect :=
+  match ext.serviceMethods user with
+  | (_, some _) => [.fail 500]
+  | (sm, none) =>
+    if method != "POST".toList then [.fail 405]
+    else match ext.formFile with
+      | (_, _, some _) => [.fail 400]
+      | (file, _, none) =>
+        if !(ext.isPublicKeyBlock (ext.pemDecode file).1) then [.fail 400]
+        else match ext.parseKey (ext.pemDecode file).1 with
+          | (_, some _) => [.fail 400]
+          | (pub, none) =>
+            match ext.strong pub with
+            | (_, some _) => [.fail 500]
+            | (false, none) => [.fail 400]
+            | (true, none) =>
+              match ext.signerFor pub with
+              | (_, _, some _) => [.fail 500]
+              | (sg, der, none) =>
+                match ext.parseCert der with
+                | (_, some _) => [.fail 500]
+                | (_, none) =>
+                  .sign user pub sg duration (if addGroups == "true".toList then ug else [])
+                      (if kube then ug else ["keymaster".toList]) sm ::
+                    match ext.sign user pub sg duration (if addGroups == "true".toList then ug else [])
+                      (if kube then ug else ["keymaster".toList]) sm with
+                    | (_, some _) => [.fail 500]
+                    | (derCert, none) =>
+                      match ext.parseCert derCert with
+                      | (_, some _) => [.fail 500]
+                      | (_, none) => [.publish derCert, .respond]
+
+/-- **closed form of the translated handler** -/
+theorem x509_issue_eq (ext : X509IssueExt) (method user addGroups : List Char) (duration : Int) (kube : Bool) :
+    (KM.Gen.GoIssue.x509Issue ext method user addGroups duration kube).2 =
+      if kube || (addGroups == "true".toList) then
+        match ext.userGroups user with
+        | (_, some _) => [.fail 500]
+        | (ug, none) => afterGroups ext method user addGroups duration kube ug
+      else afterGroups ext method user addGroups duration kube [] := by
+  obtain ⟨ugf, smf, ff, pd, ipk, pk, st, sf, pc, sg⟩ := ext
+  unfold KM.Gen.GoIssue.x509Issue
+  extract_lets tr ug0 orgs0 cert0 buf0 k1
+  have hk : ∀ ug, (k1 (tr, ug)).2 =
+      afterGroups ⟨ugf, smf, ff, pd, ipk, pk, st, sf, pc, sg⟩ method user addGroups duration kube ug := by
+    intro ug
+    unfold k1 afterGroups
+    dsimp only
+    rcases smf user with ⟨sm, _ | e⟩
+    · simp only [Option.isSome_none, Bool.false_eq_true, if_false]
+      by_cases hm : (method != "POST".toList) = true
+      · simp only [hm, if_true]; rfl
+      · simp only [hm, if_false]
+        rcases ff with ⟨file, hdr, _ | e⟩
+        · simp only [Option.isSome_none, Bool.false_eq_true, if_false]
+          generalize (pd file).fst = block
+          by_cases hb : (!ipk block) = true
+          · simp only [hb, if_true]; rfl
+          · simp only [hb, if_false]
+            rcases pk block with ⟨pub, _ | e⟩
+            · simp only [Option.isSome_none, Bool.false_eq_true, if_false]
+              rcases st pub with ⟨v, _ | e⟩
+              · cases v
+                · simp only [Option.isSome_none, Bool.false_eq_true, if_false, Bool.not_false, if_true]; rfl
+                · simp only [Option.isSome_none, Bool.false_eq_true, if_false, Bool.not_true]
+                  rcases sf pub with ⟨s, der, _ | e⟩
+                  · simp only [Option.isSome_none, Bool.false_eq_true, if_false]
+                    rcases pc der with ⟨ca, _ | e⟩
+                    · simp only [Option.isSome_none, Bool.false_eq_true, if_false]
+                      rcases sg user pub s duration (if (addGroups == "true".toList) = true then ug else ug0)
+                        (if kube = true then ug else orgs0) sm with ⟨dc, _ | e⟩
+                      · simp only [Option.isSome_none, Bool.false_eq_true, if_false]
+                        rcases pc dc with ⟨pcert, _ | e⟩
+                        · simp only [Option.isSome_none, Bool.false_eq_true, if_false]; rfl
+                        · simp only [Option.isSome_some, if_true]; rfl
+                      · simp only [Option.isSome_some, if_true]; rfl
+                    · simp only [Option.isSome_some, if_true]; rfl
+                  · simp only [Option.isSome_some, if_true]; rfl
+              · simp only [Option.isSome_some, if_true]; rfl
+            · simp only [Option.isSome_some, if_true]; rfl
+        · simp only [Option.isSome_some, if_true]; rfl
+    · simp only [Option.isSome_some, if_true]; rfl
+  by_cases hn : (kube || (addGroups == "true".toList)) = true
+  · simp only [hn, if_true]
+    rcases ugf user with ⟨ug, _ | e⟩
+    · simp only [Option.isSome_none, Bool.false_eq_true, if_false]
+      exact hk ug
+    · simp only [Option.isSome_some, if_true]; rfl
+  · simp only [hn, if_false]
+    exact hk ug0
+
+/-- the two lists the generator is given, from the user's groups `ug` -/
+def groupsArg (addGroups : List Char) (ug : List (List Char)) : List (List Char) :=
+  if addGroups == "true".toList then ug else []
+def orgsArg (kube : Bool) (ug : List (List Char)) : List (List Char) :=
+  if kube then ug else ["keymaster".toList]
+
+theorem afterGroups_cases (ext : X509IssueExt) (method user addGroups : List Char) (duration : Int) (kube : Bool)
+    (ug : List (List Char)) :
+    (∃ st, afterGroups ext method user addGroups duration kube ug = [.fail st]) ∨
+    ∃ file hdr pub sg der ca sm, method = "POST".toList ∧ ext.formFile = (file, hdr, none) ∧
+      ext.isPublicKeyBlock (ext.pemDecode file).1 = true ∧ ext.parseKey (ext.pemDecode file).1 = (pub, none) ∧
+      ext.strong pub = (true, none) ∧ ext.signerFor pub = (sg, der, none) ∧ ext.parseCert der = (ca, none) ∧
+      ext.serviceMethods user = (sm, none) ∧
+      ((∃ st, afterGroups ext method user addGroups duration kube ug =
+          [.sign user pub sg duration (groupsArg addGroups ug) (orgsArg kube ug) sm, .fail st]) ∨
+       ∃ dc, (ext.sign user pub sg duration (groupsArg addGroups ug) (orgsArg kube ug) sm) = (dc, none) ∧
+         afterGroups ext method user addGroups duration kube ug =
+          [.sign user pub sg duration (groupsArg addGroups ug) (orgsArg kube ug) sm, .publish dc, .respond]) := by
+  unfold afterGroups groupsArg orgsArg
+  rcases hsm : ext.serviceMethods user with ⟨sm, _ | e⟩
+  · simp only
+    by_cases hm : (method != "POST".toList) = true
+    · left; exact ⟨405, by rw [if_pos hm]⟩
+    · rw [if_neg hm]
+      have hm' : method = "POST".toList := by simpa using hm
+      rcases hf : ext.formFile with ⟨file, hdr, _ | e⟩
+      · simp only
+        by_cases hb : (!(ext.isPublicKeyBlock (ext.pemDecode file).1)) = true
+        · left; exact ⟨400, by rw [if_pos hb]⟩
+        · rw [if_neg hb]
+          have hb' : ext.isPublicKeyBlock (ext.pemDecode file).1 = true := by simpa using hb
+          rcases hp : ext.parseKey (ext.pemDecode file).1 with ⟨pub, _ | e⟩
+          · simp only
+            rcases hs : ext.strong pub with ⟨v, _ | e⟩
+            · cases v
+              · left; exact ⟨400, rfl⟩
+              · simp only
+                rcases hsf : ext.signerFor pub with ⟨sg, der, _ | e⟩
+                · simp only
+                  rcases hc : ext.parseCert der with ⟨ca, _ | e⟩
+                  · simp only
+                    right
+                    refine ⟨file, hdr, pub, sg, der, ca, sm, hm', rfl, hb', hp, hs, hsf, hc, rfl, ?_⟩
+                    rcases hg : ext.sign user pub sg duration (if (addGroups == "true".toList) = true then ug else [])
+                      (if kube = true then ug else ["keymaster".toList]) sm with ⟨dc, _ | e⟩
+                    · simp only
+                      rcases hpc : ext.parseCert dc with ⟨pcert, _ | e⟩
+                      · right; exact ⟨dc, rfl, rfl⟩
+                      · left; exact ⟨500, rfl⟩
+                    · left; exact ⟨500, rfl⟩
+                  · left; exact ⟨500, rfl⟩
+                · left; exact ⟨500, rfl⟩
+            · left; exact ⟨500, rfl⟩
+          · left; exact ⟨400, rfl⟩
+      · left; exact ⟨400, rfl⟩
+  · left; exact ⟨500, rfl⟩
+
+/-- the user's groups as the handler obtains them: looked up only when a group-bearing certificate is asked for -/
+def groupsFor (ext : X509IssueExt) (user addGroups : List Char) (kube : Bool) : Option (List (List Char)) :=
+  if kube || (addGroups == "true".toList) then
+    match ext.userGroups user with
+    | (_, some _) => none
+    | (ug, none) => some ug
+  else some []
+
+theorem x509_issue_cases (ext : X509IssueExt) (method user addGroups : List Char) (duration : Int) (kube : Bool) :
+    (∃ st, (KM.Gen.GoIssue.x509Issue ext method user addGroups duration kube).2 = [.fail st]) ∨
+    ∃ ug, groupsFor ext user addGroups kube = some ug ∧
+      (KM.Gen.GoIssue.x509Issue ext method user addGroups duration kube).2 =
+        afterGroups ext method user addGroups duration kube ug := by
+  rw [x509_issue_eq]
+  unfold groupsFor
+  by_cases hn : (kube || (addGroups == "true".toList)) = true
+  · rw [if_pos hn, if_pos hn]
+    rcases ext.userGroups user with ⟨ug, _ | e⟩
+    · right; exact ⟨ug, rfl, rfl⟩
+    · left; exact ⟨500, rfl⟩
+  · rw [if_neg hn, if_neg hn]
+    right; exact ⟨[], rfl, rfl⟩
+
+/-- **the X.509 certificate is for the authenticated user, the submitted validated key, and carries only that user's
+own groups** (C02, C10), on the translated source: `certgen.GenUserX509Cert` is called only for `targetUser`, with the
+public key parsed from the uploaded `PUBLIC KEY` block that `ValidatePublicKeyStrength` accepted, the CA signer chosen
+for THAT key, the handler's lifetime, the service methods of that user, and as groups / organizations either nothing /
+`["keymaster"]` or the groups the directory returned for that same user (groups only when `addGroups=true`,
+organizations only for the Kubernetes flavour). -/
+theorem c02_go_x509_sign (ext : X509IssueExt) (method user addGroups : List Char) (duration : Int) (kube : Bool)
+    (u : List Char) (pub sg : Nat) (d : Int) (g o m : List (List Char))
+    (h : X509Effect.sign u pub sg d g o m ∈ (KM.Gen.GoIssue.x509Issue ext method user addGroups duration kube).2) :
+    u = user ∧ d = duration ∧ method = "POST".toList ∧
+    ∃ file hdr der ug, ext.formFile = (file, hdr, none) ∧ ext.isPublicKeyBlock (ext.pemDecode file).1 = true ∧
+      ext.parseKey (ext.pemDecode file).1 = (pub, none) ∧ ext.strong pub = (true, none) ∧
+      ext.signerFor pub = (sg, der, none) ∧ ext.serviceMethods user = (m, none) ∧
+      groupsFor ext user addGroups kube = some ug ∧ g = groupsArg addGroups ug ∧ o = orgsArg kube ug := by
+  rcases x509_issue_cases ext method user addGroups duration kube with ⟨st, hst⟩ | ⟨ug, hug, heq⟩
+  · rw [hst] at h; simp at h
+  · rw [heq] at h
+    rcases afterGroups_cases ext method user addGroups duration kube ug with ⟨st, hst⟩ |
+      ⟨file, hdr, pub', sg', der, ca, sm, hm, hf, hb, hp, hs, hsf, hc, hsm, hrest⟩
+    · rw [hst] at h; simp at h
+    · have : X509Effect.sign u pub sg d g o m =
+          X509Effect.sign user pub' sg' duration (groupsArg addGroups ug) (orgsArg kube ug) sm := by
+        rcases hrest with ⟨st, hst⟩ | ⟨dc, _, hst⟩ <;> rw [hst] at h <;> simpa using h
+      cases this
+      exact ⟨rfl, rfl, hm, file, hdr, der, ug, hf, hb, hp, hs, hsf, hsm, hug, rfl, rfl⟩
+
+/-- the response starts only after the certificate the generator returned was published (restated as `c20_go_x509_published`) -/
+theorem x509_published (ext : X509IssueExt) (method user addGroups : List Char) (duration : Int) (kube : Bool) :
+    (X509Effect.respond ∈ (KM.Gen.GoIssue.x509Issue ext method user addGroups duration kube).2 ∨
+     (∃ c, X509Effect.publish c ∈ (KM.Gen.GoIssue.x509Issue ext method user addGroups duration kube).2)) →
+    ∃ pub sg g o m der, ext.sign user pub sg duration g o m = (der, none) ∧
+      (KM.Gen.GoIssue.x509Issue ext method user addGroups duration kube).2 =
+        [.sign user pub sg duration g o m, .publish der, .respond] := by
+  intro h
+  rcases x509_issue_cases ext method user addGroups duration kube with ⟨st, hst⟩ | ⟨ug, hug, heq⟩
+  · rw [hst] at h; simp at h
+  · rw [heq] at h ⊢
+    rcases afterGroups_cases ext method user addGroups duration kube ug with ⟨st, hst⟩ |
+      ⟨file, hdr, pub', sg', der, ca, sm, hm, hf, hb, hp, hs, hsf, hc, hsm, hrest⟩
+    · rw [hst] at h; simp at h
+    · rcases hrest with ⟨st, hst⟩ | ⟨dc, hdc, hst⟩
+      · rw [hst] at h; simp at h
+      · exact ⟨_, _, _, _, _, dc, hdc, hst⟩
+
+
 end KM.IssueGo
